@@ -125,6 +125,8 @@ type Exec struct {
 	opaqueOK bool
 	nowTick  int
 	lastNow  *Term
+	vfs      map[string]vfsFile // in-memory file system (intrinsics_vfs.go)
+	vfsErr   Value
 	strCache map[string]*Object
 	goq      []func()
 	known    map[string]bool // known-finding classes (names) for this harness
